@@ -227,47 +227,270 @@ Proof.
   destruct (tc_inv _ _ _ Htc) as (tys & Ht & Hr). pose proof (tcs_Forall2 _ _ Ht) as F2.
   destruct k; cbn [SimplifierSemBase_proofs.str_arity] in Ha; cbn [tc_rule] in Hr.
   - (* length *) apply type_to_type_inv in Hr. destruct Hr as [Hall _]. destruct (all_str_consts _ _ F2 Hall Fo Fc) as [vs ->].
-    destruct vs as [|s [|? ?]]; try discriminate Ha. cbn. eauto.
+    destruct vs as [|s [|? ?]]; try discriminate Ha. cbn [map r_str str_value top TStrC TIntC]. eauto.
   - (* concat *) apply type_to_type_inv in Hr. destruct Hr as [Hall _]. destruct (all_str_consts _ _ F2 Hall Fo Fc) as [vs ->].
     cbn [r_str]. assert (E : forallb is_string_constant (map TStrC vs) = true) by (apply forallb_forall; intros x Hx; apply in_map_iff in Hx; destruct Hx as (s & <- & _); reflexivity).
     rewrite E. eauto.
   - (* contains *) apply type_to_type_inv in Hr. destruct Hr as [Hall _]. destruct (all_str_consts _ _ F2 Hall Fo Fc) as [vs ->].
-    destruct vs as [|s [|t [|? ?]]]; try discriminate Ha. cbn. eauto.
+    destruct vs as [|s [|t [|? ?]]]; try discriminate Ha. cbn [map r_str str_value top TStrC TIntC]. eauto.
   - (* indexof *) destruct tys as [|[] [|[] [|[] [|? ?]]]]; try discriminate Hr.
     inversion F2 as [|a ? ? ? Ta F2']; subst. inversion F2' as [|b ? ? ? Tb F2'']; subst. inversion F2'' as [|c ? ? ? Tc0 F3]; subst. inversion F3; subst.
     inversion Fo as [|? ? Oa Fo']; subst. inversion Fo' as [|? ? Ob Fo'']; subst. inversion Fo'' as [|? ? Oc _]; subst.
     inversion Fc as [|? ? Ca Fc']; subst. inversion Fc' as [|? ? Cb Fc'']; subst. inversion Fc'' as [|? ? Cc _]; subst.
     destruct (str_const_arg a Oa Ta Ca) as [s ->]. destruct (str_const_arg b Ob Tb Cb) as [t ->]. destruct (int_const_arg c Oc Tc0 Cc) as [z ->].
-    cbn. eauto.
+    cbn [map r_str str_value top TStrC TIntC]. eauto.
   - (* replace *) apply type_to_type_inv in Hr. destruct Hr as [Hall _]. destruct (all_str_consts _ _ F2 Hall Fo Fc) as [vs ->].
-    destruct vs as [|s [|t [|u [|? ?]]]]; try discriminate Ha. cbn. eauto.
+    destruct vs as [|s [|t [|u [|? ?]]]]; try discriminate Ha. cbn [map r_str str_value top TStrC TIntC]. eauto.
   - (* substr *) destruct tys as [|[] [|[] [|[] [|? ?]]]]; try discriminate Hr.
     inversion F2 as [|a ? ? ? Ta F2']; subst. inversion F2' as [|b ? ? ? Tb F2'']; subst. inversion F2'' as [|c ? ? ? Tc0 F3]; subst. inversion F3; subst.
     inversion Fo as [|? ? Oa Fo']; subst. inversion Fo' as [|? ? Ob Fo'']; subst. inversion Fo'' as [|? ? Oc _]; subst.
     inversion Fc as [|? ? Ca Fc']; subst. inversion Fc' as [|? ? Cb Fc'']; subst. inversion Fc'' as [|? ? Cc _]; subst.
     destruct (str_const_arg a Oa Ta Ca) as [s ->]. destruct (int_const_arg b Ob Tb Cb) as [i ->]. destruct (int_const_arg c Oc Tc0 Cc) as [j ->].
-    cbn. eauto.
+    cbn [map r_str str_value top TStrC TIntC]. eauto.
   - (* prefixof *) apply type_to_type_inv in Hr. destruct Hr as [Hall _]. destruct (all_str_consts _ _ F2 Hall Fo Fc) as [vs ->].
-    destruct vs as [|s [|t [|? ?]]]; try discriminate Ha. cbn. eauto.
+    destruct vs as [|s [|t [|? ?]]]; try discriminate Ha. cbn [map r_str str_value top TStrC TIntC]. eauto.
   - (* suffixof *) apply type_to_type_inv in Hr. destruct Hr as [Hall _]. destruct (all_str_consts _ _ F2 Hall Fo Fc) as [vs ->].
-    destruct vs as [|s [|t [|? ?]]]; try discriminate Ha. cbn. eauto.
+    destruct vs as [|s [|t [|? ?]]]; try discriminate Ha. cbn [map r_str str_value top TStrC TIntC]. eauto.
   - (* to_int *) apply type_to_type_inv in Hr. destruct Hr as [Hall _]. destruct (all_str_consts _ _ F2 Hall Fo Fc) as [vs ->].
     destruct vs as [|s [|? ?]]; try discriminate Ha. cbn [map r_str str_value top TStrC].
     destruct ((zlen s =? 0)%Z || negb (forallb PyPrims.is_digit s)) eqn:C; [eauto|].
     apply orb_false_iff in C. destruct C as [C1 C2]. apply negb_false_iff in C2.
     assert (Hne : s <> []) by (intros ->; discriminate C1).
-    rewrite (py_int_of_str_digits s Hne C2). cbn in Hlim. unfold max_str_digits.
+    rewrite (py_int_of_str_digits s Hne C2). change (slen s <= 4300)%Z in Hlim. unfold max_str_digits.
     rewrite (proj2 (Z.ltb_ge 4300 (slen s))) by exact Hlim. eauto.
   - (* from_int *) apply type_to_type_inv in Hr. destruct Hr as [Hall _].
     destruct cs as [|c [|? ?]]; try discriminate Ha. inversion F2 as [|? t0 ? ? Tc0 F2']; subst. inversion Hall; subst.
     inversion Fo as [|? ? Oc _]; subst. inversion Fc as [|? ? Cc _]; subst.
     destruct (int_const_arg c Oc Tc0 Cc) as [z ->]. cbn [r_str top TIntC].
-    destruct (Z.ltb_spec z 0); [eauto|]. cbn in Hlim.
+    destruct (Z.ltb_spec z 0); [eauto|]. change (z < 10 ^ 4300)%Z in Hlim.
     destruct (py_str_of_int_total z (conj H Hlim)) as [ds ->]. eauto.
   - (* charat *) destruct tys as [|[] [|[] [|? ?]]]; try discriminate Hr.
     inversion F2 as [|a ? ? ? Ta F2']; subst. inversion F2' as [|b ? ? ? Tb F2'']; subst. inversion F2''; subst.
     inversion Fo as [|? ? Oa Fo']; subst. inversion Fo' as [|? ? Ob _]; subst.
     inversion Fc as [|? ? Ca Fc']; subst. inversion Fc' as [|? ? Cb _]; subst.
     destruct (str_const_arg a Oa Ta Ca) as [s ->]. destruct (int_const_arg b Ob Tb Cb) as [i ->].
-    cbn. eauto.
+    cbn [map r_str str_value top TStrC TIntC]. eauto.
 Qed.
+
+(* ------------------------------------------------------------------ the operators of cfrag other than Ite / Equals take scalars *)
+Definition scalar_ty (t : ty) : bool := match t with TArr _ _ => false | _ => true end.
+Lemma all_eq_scalar u tys : scalar_ty u = true -> Forall (fun x => x = u) tys -> Forall (fun t => scalar_ty t = true) tys.
+Proof. intros Hu F. induction F; constructor; subst; auto. Qed.
+Lemma cop_args_scalar o cs tys ty : cop o = true -> o <> OIte -> o <> OEquals ->
+  ok_node o cs = true -> Forall2 (fun a t => tc a = Some t) cs tys -> tc_rule o tys = Some ty ->
+  Forall (fun t => scalar_ty t = true) tys.
+Proof.
+  intros Hc Hi He Hn F2 Hr. pose proof (Forall2_length_eq _ _ _ F2) as Hlen.
+  destruct o; try discriminate Hc; try congruence; cbn [ok_node] in Hn; cbn [tc_rule] in Hr.
+  - apply all_bool_inv in Hr. destruct Hr as [_ H]. now apply (all_eq_scalar TBool).
+  - apply all_bool_inv in Hr. destruct Hr as [_ H]. now apply (all_eq_scalar TBool).
+  - apply all_bool_inv in Hr. destruct Hr as [_ H]. now apply (all_eq_scalar TBool).
+  - apply all_bool_inv in Hr. destruct Hr as [_ H]. now apply (all_eq_scalar TBool).
+  - apply all_bool_inv in Hr. destruct Hr as [_ H]. now apply (all_eq_scalar TBool).
+  - destruct tys; [constructor | discriminate].
+  - destruct tys; [constructor | discriminate].
+  - destruct tys; [constructor | discriminate].
+  - destruct tys; [constructor | discriminate].
+  - apply arith_rule_inv in Hr. destruct Hr as [[-> | ->] H]; [now apply (all_eq_scalar TInt) | now apply (all_eq_scalar TReal)].
+  - apply arith_rule_inv in Hr. destruct Hr as [[-> | ->] H]; [now apply (all_eq_scalar TInt) | now apply (all_eq_scalar TReal)].
+  - apply arith_rule_inv in Hr. destruct Hr as [[-> | ->] H]; [now apply (all_eq_scalar TInt) | now apply (all_eq_scalar TReal)].
+  - apply rel_rule_inv in Hr. destruct Hr as (_ & u & [-> | ->] & H); [now apply (all_eq_scalar TInt) | now apply (all_eq_scalar TReal)].
+  - apply rel_rule_inv in Hr. destruct Hr as (_ & u & [-> | ->] & H); [now apply (all_eq_scalar TInt) | now apply (all_eq_scalar TReal)].
+  - apply type_to_type_inv in Hr. destruct Hr as [H _]. now apply (all_eq_scalar TInt).
+  - destruct tys; [constructor | discriminate].
+  - (* bv operators *)
+    apply andb_true_iff in Hn. destruct Hn as [_ Hk].
+    destruct k; try discriminate Hk;
+      try (cbn in Hr; destruct (forallb (fun a => ty_eqb a (TBV w)) tys) eqn:E; [|discriminate];
+           apply Forall_forall; intros x Hx; rewrite forallb_forall in E; specialize (E x Hx); apply ty_eqb_eq in E; now subst).
+    + destruct cs as [|a [|b [|? ?]]]; try discriminate Hk. destruct tys as [|ta [|tb [|? ?]]]; try discriminate Hlen.
+      cbn in Hr. destruct ta; try discriminate. destruct tb; try discriminate. repeat constructor.
+    + apply andb_true_iff in Hk. destruct Hk as [Hk _]. destruct cs as [|a [|b [|? ?]]]; try discriminate Hk. destruct tys as [|ta [|tb [|? ?]]]; try discriminate Hlen.
+      cbn in Hr. destruct (ty_eqb ta tb && is_bv ta) eqn:E; [|discriminate]. apply andb_true_iff in E. destruct E as [E1 E2].
+      apply ty_eqb_eq in E1. subst tb. destruct ta; try discriminate E2. repeat constructor.
+  - (* bv relations *) unfold bv_to_bool in Hr. destruct tys as [|[] rest]; try discriminate.
+    destruct (forallb _ rest) eqn:E; [|discriminate]. constructor; [reflexivity|].
+    apply Forall_forall. intros x Hx. rewrite forallb_forall in E. specialize (E x Hx). destruct x; try discriminate E. reflexivity.
+  - destruct tys as [|[] ?]; try discriminate. destruct cs as [|a [|? ?]]; try discriminate. destruct tys; [|discriminate Hlen]. repeat constructor.
+  - destruct cs as [|a [|? ?]]; try discriminate. destruct tys as [|ta [|? ?]]; try discriminate Hlen.
+    destruct ((w <? k)%Z || (w <? 0)%Z || (k <? 0)%Z); [discriminate|]. destruct ta; try discriminate. repeat constructor.
+  - destruct cs as [|a [|? ?]]; try discriminate. destruct tys as [|ta [|? ?]]; try discriminate Hlen.
+    destruct ((w <? k)%Z || (w <? 0)%Z || (k <? 0)%Z); [discriminate|]. destruct ta; try discriminate. repeat constructor.
+  - destruct cs as [|a [|? ?]]; try discriminate. destruct tys as [|ta [|? ?]]; try discriminate Hlen. destruct ta; try discriminate. repeat constructor.
+  - destruct cs as [|a [|? ?]]; try discriminate. destruct tys as [|ta [|? ?]]; try discriminate Hlen. destruct ta; try discriminate. repeat constructor.
+  - apply arith_rule_inv in Hr. destruct Hr as [[-> | ->] H]; [now apply (all_eq_scalar TInt) | now apply (all_eq_scalar TReal)].
+  - destruct cs as [|a [|e [|? ?]]]; try discriminate Hn; try (destruct e as [[] [|]]; discriminate Hn).
+    destruct tys as [|ta [|tb [|? ?]]]; try discriminate Hlen. cbn in Hr. destruct (ty_eqb ta tb) eqn:E; [|discriminate].
+    apply ty_eqb_eq in E. subst tb. destruct ta; try discriminate; repeat constructor.
+  - destruct cs as [|a [|? ?]]; try discriminate. destruct tys as [|ta [|? ?]]; try discriminate Hlen.
+    destruct ta; try discriminate. repeat constructor.
+Qed.
+
+(* ------------------------------------------------------------------ one node on constant arguments *)
+Lemma array_value_ty c t : is_array_value c = true -> tc c = Some t -> scalar_ty t = false.
+Proof.
+  destruct c as [o l]. destruct o; try discriminate. intros _ Htc. destruct (tc_inv _ _ _ Htc) as (tys & _ & Hr).
+  cbn in Hr. destruct tys as [|d r]; [discriminate|]. destruct (array_value_ok it d r true); [|discriminate]. now inversion Hr.
+Qed.
+Lemma scalar_const_kconst c t : okt c = true -> tc c = Some t -> is_constant c = true -> scalar_ty t = true -> kconst c.
+Proof.
+  intros O Tc C S. apply (is_constant_kconst c t); auto. destruct (is_array_value c) eqn:A; auto.
+  rewrite (array_value_ty c t A Tc) in S. discriminate.
+Qed.
+Lemma scalar_constant_value c : is_constant c = true -> is_array_value c = false -> exists v, constant_value c = Some v.
+Proof. destruct c as [o l]. destruct o; cbn; try discriminate; eauto. Qed.
+
+Lemma rule_const_wide ora I o cs ty : wfi I ->
+  ok_node_w o cs = true -> Forall (fun c => okt c = true) cs -> Forall (fun c => is_constant c = true) cs ->
+  tc (T o cs) = Some ty -> wop o = true ->
+  (match o, cs with ODiv, [_; b] => is_zero b = false | OPow, [_; e] => exp_nn e = true | _, _ => True end) ->
+  strlim_node I o cs ->
+  exists c, rule ora o cs = Some c /\ is_constant c = true.
+Proof.
+  intros Hwf Hn Fo Fc Htc Hw Hdiv Hlim.
+  destruct (tc_inv _ _ _ Htc) as (tys & Ht & Hr). pose proof (tcs_Forall2 _ _ Ht) as F2.
+  assert (Hold : cop o = true -> o <> OIte -> o <> OEquals -> exists c, rule ora o cs = Some c /\ is_constant c = true).
+  { intros Hc Hi He.
+    assert (Hn' : ok_node o cs = true) by (destruct o; try exact Hn; discriminate Hc).
+    pose proof (cop_args_scalar o cs tys ty Hc Hi He Hn' F2 Hr) as Fs.
+    assert (K : Forall kconst cs).
+    { clear - F2 Fs Fo Fc. induction F2 as [|c t cs tys Hc Hr IH]; constructor;
+        inversion Fs; inversion Fo; inversion Fc; subst; auto. now apply (scalar_const_kconst c t). }
+    destruct (rule_const ora o cs ty (okt_intro _ _ Hn' Fo) Htc Hc K Hdiv) as (c & Ec & Kc).
+    exists c. split; auto. now apply kconst_is_constant. }
+  destruct o; try discriminate Hw; try (apply Hold; [reflexivity | discriminate | discriminate]); cbn [rule]; unfold un, bin, tern.
+  - (* equals *)
+    cbn [ok_node_w ok_node] in Hn. destruct cs as [|a [|b [|? ?]]]; try discriminate Hn.
+    inversion F2 as [|? ta ? ? Ta F2']; subst. inversion F2' as [|? tb ? ? Tb F2'']; subst. inversion F2''; subst.
+    destruct (equals_same _ _ _ Hr) as [<- _].
+    inversion Fo as [|? ? Oa Fo']; subst. inversion Fo' as [|? ? Ob _]; subst.
+    inversion Fc as [|? ? Ca Fc']; subst. inversion Fc' as [|? ? Cb _]; subst.
+    unfold r_equals. rewrite Ca, Cb. cbn [andb].
+    destruct (negb (is_array_value a) && negb (is_array_value b)) eqn:E.
+    + apply andb_true_iff in E. destruct E as [Ea Eb]. apply negb_true_iff in Ea, Eb.
+      destruct (scalar_constant_value a Ca Ea) as [x ->]. destruct (scalar_constant_value b Cb Eb) as [y ->]. eauto.
+    + destruct (term_eqb a b); [eauto|].
+      destruct (const_eqb_total (S (tsize a)) a b ta ltac:(lia) Oa Ob Ta Tb Ca Cb) as [x ->]. eauto.
+  - (* ite *)
+    cbn [ok_node_w ok_node] in Hn. destruct cs as [|c [|a [|b [|? ?]]]]; try discriminate Hn.
+    inversion F2 as [|? tc0 ? ? Tc0 F2']; subst. inversion F2' as [|? ta ? ? Ta F2'']; subst. inversion F2'' as [|? tb ? ? Tb F3]; subst.
+    inversion Fc as [|? ? Cc Fc']; subst. inversion Fc' as [|? ? Ca Fc'']; subst. inversion Fc'' as [|? ? Cb _]; subst.
+    inversion Fo as [|? ? Oc _]; subst.
+    cbn in Hr. destruct (ty_eqb tc0 TBool) eqn:Eb; [|discriminate]. apply ty_eqb_eq in Eb. subst tc0.
+    eexists. split; [reflexivity|]. unfold r_ite. destruct (term_eqb a b); auto.
+    destruct (const_cases c _ Oc Tc0 Cc) as [(x & -> & E)|[(x & -> & E)|[(n1 & d1 & -> & E & D1)|[(v1 & w1 & -> & E)|[(s1 & -> & E)|(? & ? & E & _)]]]]];
+      try discriminate E. cbn. destruct x; auto.
+  - (* strings *) cbn [ok_node_w ok_node] in Hn. now apply (c_str I k cs ty).
+  - (* select *)
+    cbn [ok_node_w ok_node] in Hn. destruct cs as [|a [|i [|? ?]]]; try discriminate Hn.
+    inversion F2 as [|? ta ? ? Ta F2']; subst. inversion Fo as [|? ? Oa _]; subst.
+    inversion Fc as [|? ? Ca Fc']; subst. inversion Fc' as [|? ? Ci _]; subst.
+    cbn in Hr. destruct ta as [| | | | |i0 e| |]; try discriminate. now apply (c_select a i i0 e).
+  - (* store *)
+    cbn [ok_node_w ok_node] in Hn. destruct cs as [|a [|i [|v [|? ?]]]]; try discriminate Hn.
+    inversion F2 as [|? ta ? ? Ta F2']; subst. inversion Fo as [|? ? Oa _]; subst.
+    inversion Fc as [|? ? Ca Fc']; subst. inversion Fc' as [|? ? Ci Fc'']; subst. inversion Fc'' as [|? ? Cv _]; subst.
+    cbn in Hr. destruct ta as [| | | | |i0 e| |]; try discriminate. now apply (c_store a i v i0 e).
+  - (* array value *)
+    destruct cs as [|d rest]; [discriminate Hn|]. cbn [ok_node_w] in Hn. apply c_array_value; auto.
+    apply forallb_forall. rewrite Forall_forall in Fc. auto.
+Qed.
+
+(* ------------------------------------------------------------------ the simplifier *)
+Lemma pownn_args o args : pownn (T o args) = true -> pow_node_nn o args = true /\ forall a, In a args -> pownn a = true.
+Proof. rewrite pownn_unfold. intros H. apply andb_true_iff in H. destruct H as [H1 H2]. split; auto. now apply forallb_forall. Qed.
+
+Theorem fold_constant_wide : forall ora I t ty, wfrag t = true -> tc t = Some ty -> wfi I -> nodiv0 I t -> strlim I t ->
+  exists c, simplify_opt ora t = Some c /\ is_constant c = true.
+Proof.
+  intros ora I. induction t as [o args IH] using term_ind'. intros ty Hf Htc Hwf Hnd Hsl.
+  destruct (wfrag_parts _ Hf) as (Hok & Hcs & Hpn).
+  rewrite wops_unfold in Hcs. apply andb_true_iff in Hcs. destruct Hcs as [Ho Hcs]. rewrite forallb_forall in Hcs.
+  destruct (pownn_args _ _ Hpn) as [Hpo Hpa].
+  pose proof (okt_args _ _ Hok) as Fa. pose proof (okt_node _ _ Hok) as Hn.
+  destruct (tc_inv _ _ _ Htc) as (tys & Ht & Hr). pose proof (tcs_Forall2 _ _ Ht) as FT.
+  pose proof (nodiv0_args _ _ _ Hnd) as Fn. pose proof (strlim_args _ _ _ Hsl) as Fs.
+  (* the arguments fold to constants of their sorts, with their values *)
+  assert (Hargs : exists cs, map_opt (simplify_opt ora) args = Some cs /\
+            Forall2 (fun a c => simplify_opt ora a = Some c /\ is_constant c = true /\ okt c = true /\ tc c = tc a /\ eval I c = eval I a) args cs).
+  { clear Hr Hn Htc Hok Hnd Hsl Hpo Hf Hpn Ht. revert tys FT. induction args as [|a r IHr]; intros tys FT.
+    - exists []. split; constructor.
+    - inversion FT as [|? ta ? tr Ta FT']; subst. inversion Fa; subst. inversion Fn; subst. inversion Fs; subst.
+      assert (Wa : wfrag a = true) by (apply wfrag_intro; [assumption | apply Hcs; cbn; auto | apply Hpa; cbn; auto]).
+      destruct (Forall_inv IH ta Wa Ta Hwf) as (c & Ec & Kc); auto.
+      destruct (IHr (Forall_inv_tail IH)) with (tys := tr) as (cs & Em & F2); auto.
+      { intros x Hx. apply Hcs. cbn; auto. } { intros x Hx. apply Hpa. cbn; auto. }
+      destruct (wfrag_parts _ Wa) as (Oa & Wo & _).
+      destruct (simplify_sound_stages ora a I ta c Oa Ta Hwf Ec) as [[Oc Tc] Ev].
+      exists (c :: cs). cbn. rewrite Ec, Em. split; [reflexivity|]. constructor; auto.
+      repeat split; auto; [congruence|]. apply Ev. now apply nodiv0_div_safe_w. }
+  destruct Hargs as (cs & Em & F2).
+  rewrite simplify_opt_unfold, Em.
+  assert (F2s : Forall2 (fun a c => simplify_opt ora a = Some c) args cs) by (clear - F2; induction F2; constructor; tauto).
+  assert (F2t : Forall2 (fun a a' => okt a' = true /\ tc a' = tc a) args cs) by (clear - F2; induction F2; constructor; tauto).
+  assert (Fo : Forall (fun c => okt c = true) cs) by (clear - F2; induction F2; constructor; tauto).
+  assert (Fc : Forall (fun c => is_constant c = true) cs) by (clear - F2; induction F2; constructor; tauto).
+  assert (Hmap : map (eval I) cs = map (eval I) args) by (clear - F2; induction F2 as [|a c l l' H _ IHl]; cbn; [reflexivity | destruct H as (_ & _ & _ & _ & ->); now rewrite IHl]).
+  assert (Tcs : tcs cs = Some tys).
+  { rewrite <- Ht. clear - F2t. induction F2t as [|a c l l' [_ H] _ IHl]; cbn; [reflexivity | now rewrite H, IHl]. }
+  assert (Htc' : tc (T o cs) = Some ty) by (rewrite tc_tcs, Tcs; exact Hr).
+  assert (Hnw : ok_node_w o cs = true).
+  { destruct (len_op o) eqn:Eo.
+    - apply ok_node_w_of. rewrite <- (ok_node_length o args cs); auto. eapply Forall2_length_eq; eauto.
+    - destruct o; try discriminate Eo.
+      + apply ok_node_w_of. apply (ok_node_ext _ args cs); eauto.
+      + apply ok_node_w_of. apply (ok_node_ext _ args cs); eauto.
+      + eapply ok_node_arr; eauto.
+      + apply ok_node_w_of. eapply ok_node_pow; eauto. }
+  assert (Hdiv : match o, cs with ODiv, [_; b] => is_zero b = false | OPow, [_; e] => exp_nn e = true | _, _ => True end).
+  { destruct o; try exact Logic.I.
+    2:{ destruct cs as [|a' [|e' [|? ?]]]; try exact Logic.I.
+        inversion F2s as [|a ? ? ? Ea F2']; subst. inversion F2' as [|e ? ? ? Ee F2'']; subst. inversion F2''; subst.
+        cbn [pow_node_nn] in Hpo. cbn [ok_node] in Hn.
+        destruct e as [oe le]. destruct oe; try discriminate Hn; destruct le; try discriminate Hn;
+          rewrite simplify_constant in Ee by exact Logic.I; inversion Ee; subst; exact Hpo. }
+    destruct cs as [|a' [|b' [|? ?]]]; try exact Logic.I.
+    inversion F2 as [|a ? ? ? _ F2']; subst. inversion F2' as [|b ? ? ? (_ & Cb & Ob & Tb & Evb) F2'']; subst. inversion F2''; subst.
+    destruct Hnd as [Hz _]. destruct (is_zero b') eqn:Z; auto. exfalso. apply Hz. rewrite <- Evb.
+    apply is_zero_kconst_val; auto.
+    cbn in Hr. apply arith_rule_inv in Hr. destruct Hr as [Har Hall]. inversion FT as [|? ta ? ? _ FT']; subst. inversion FT' as [|? tb ? ? Tb0 _]; subst.
+    inversion Hall as [|? ? _ Hall']; subst. inversion Hall'; subst.
+    apply (scalar_const_kconst b' ty); auto; [congruence | destruct Har; subst; reflexivity]. }
+  assert (Hlim : strlim_node I o cs).
+  { destruct Hsl as [Hl _]. destruct o; try exact Logic.I. destruct k; try exact Logic.I;
+      destruct cs as [|c [|? ?]]; try exact Logic.I; inversion F2 as [|a ? ? ? (_ & _ & _ & _ & Ev) F2']; subst; inversion F2'; subst;
+      cbn [strlim_node] in *; now rewrite Ev. }
+  destruct (rule_const_wide ora I o cs ty Hwf Hnw Fo Fc Htc' Ho Hdiv Hlim) as (c & Ec & Kc).
+  exists c. split; auto. unfold simp_rule, Simplifier.bind. rewrite Ec.
+  destruct (rule_sound1w I ora o cs ty c Hwf Hnw Fo Htc' Ec) as (_ & Tc & _). now rewrite Tc.
+Qed.
+
+(* For closed, quantifier-free, UF-free terms of the wider fragment in which no divisor evaluates to 0
+   and the int <-> str conversions stay below CPython's limit: simplification returns a constant, of the
+   sort of the term, inside the fragment, that denotes the value of the term. *)
+Theorem fold_complete_wide : forall ora I t ty, wfrag t = true -> tc t = Some ty -> wfi I -> nodiv0 I t -> strlim I t ->
+  exists c, simplify_opt ora t = Some c /\ is_constant c = true /\ okt c = true /\ tc c = Some ty /\ eval I c = eval I t.
+Proof.
+  intros ora I t ty Hf Htc Hwf Hnd Hsl.
+  destruct (fold_constant_wide ora I t ty Hf Htc Hwf Hnd Hsl) as (c & Ec & Kc).
+  destruct (wfrag_parts _ Hf) as (Hok & Hcs & _).
+  destruct (simplify_sound_stages ora t I ty c Hok Htc Hwf Ec) as [[Oc Tc] Ev].
+  exists c. repeat split; auto. apply Ev. now apply nodiv0_div_safe_w.
+Qed.
+(* results of scalar sort are scalar constants *)
+Corollary fold_complete_wide_scalar : forall ora I t ty, wfrag t = true -> tc t = Some ty -> scalar_ty ty = true ->
+  wfi I -> nodiv0 I t -> strlim I t ->
+  exists c, simplify_opt ora t = Some c /\ is_const c = true /\ tc c = Some ty /\ eval I c = eval I t.
+Proof.
+  intros ora I t ty Hf Htc Hs Hwf Hnd Hsl.
+  destruct (fold_complete_wide ora I t ty Hf Htc Hwf Hnd Hsl) as (c & Ec & Kc & Oc & Tc & Ev).
+  exists c. repeat split; auto. apply kconst_is_const. now apply (scalar_const_kconst c ty).
+Qed.
+
+Example fold_example_wide :
+  let a := T (OArrayValue TInt) [TStrC []; TIntC 1; TStrC [52; 50]%Z] in
+  let t := T OEquals [T (OStr SToInt) [T (OStr SConcat) [T OSelect [T OStore [a; TIntC 2; TStrC [55]%Z]; TIntC 1];
+                                                        T OSelect [T OStore [a; TIntC 2; TStrC [55]%Z]; TIntC 2]]];
+                      T OPlus [TIntC 420; T (OStr SLength) [T (OStr SFromInt) [TIntC 1234567]]]] in
+  wfrag t = true /\ tc t = Some TBool /\ simplify_opt no_oracle t = Some TTrue.
+Proof. cbv zeta. split; [vm_compute; reflexivity|]. split; vm_compute; reflexivity. Qed.
